@@ -490,7 +490,8 @@ def run_chunks(ctx, cases):
     chunks = [cases[i::np_] for i in range(np_)]
     chunks = [c for c in chunks if c]
     # every runner process records the executed lines of the anchored tenpy files (sys.monitoring, each location reported once)
-    res = common.run_impl_parallel('c13_impl.py', [{'cases': ch, 'cover': c13_cover.MODULES} for ch in chunks])
+    # (generous limit for the thorough tier: the runs are CPU bound and the machine is shared)
+    res = common.run_impl_parallel('c13_impl.py', [{'cases': ch, 'cover': c13_cover.MODULES} for ch in chunks], timeout=ctx.pick(2400, 14400))
     results = [None] * len(cases)
     hits = []
     for i, (r, err) in enumerate(res):
@@ -557,10 +558,15 @@ def main(ctx):
     cases += [gen_inf_noenv(rng) for _ in range(ctx.pick(12, 60))]
     # option-space strata (harness/c13_ext.py): every feature of the lists once (quick) / several times (thorough)
     nf, ni, nv = len(c13_ext.FINITE_FEATURES), len(c13_ext.INFINITE_FEATURES), len(c13_ext.VUMPS_FEATURES)
-    cases += [c13_ext.gen_finite(rng, k, gen_case) for k in range(ctx.pick(nf, 10 * nf) * mult)]
-    cases += [c13_ext.gen_infinite(rng, k) for k in range(ctx.pick(ni, 4 * ni))]
+    cases += [c13_ext.gen_finite(rng, k, gen_case) for k in range(ctx.pick(nf, 5 * nf) * mult)]
+    cases += [c13_ext.gen_infinite(rng, k) for k in range(ctx.pick(ni, 3 * ni))]
     # (VUMPS runs are the most expensive ones: the quick tier rotates through the features with the seed)
-    cases += [c13_ext.gen_vumps(rng, k + 4 * ctx.seed) for k in range(ctx.pick(4, 3 * nv))]
+    cases += [c13_ext.gen_vumps(rng, k + 4 * ctx.seed) for k in range(ctx.pick(4, 2 * nv))]
+    # read-back of the effective Hamiltonians (runner: effh_probe): every finite run of the quick tier, every third one of the older
+    # streams in the thorough tier (dense to_matrix for every position and variant)
+    for k_, c_ in enumerate(cases):
+        if not c_.get('ext') and ctx.thorough() and k_ % 3:
+            c_['no_effh'] = True
     for c in common.corpus_cases('C13'):
         cases.append(c['case'])
     if os.environ.get('VERIF_C13_STREAMS'):     # debugging aid: only the named streams (the cases of a stream do not depend on the selection)
